@@ -1,6 +1,6 @@
 (* Proofs about Model/Relay.v *)
 From Coq Require Import List NArith Bool Lia.
-From Sam Require Import Model.Bytes Model.Relay.
+From Sam Require Import Gen.Tables Model.Bytes Model.Relay.
 Import ListNotations.
 Open Scope N_scope.
 
@@ -74,3 +74,6 @@ Proof. intros E U S. cbn [rstep]. rewrite E, U, S. reflexivity. Qed.
 (* the other direction is untouched by anything that happens in this one *)
 Lemma directions_independent B c2b b2c extra : snd (both B (c2b ++ extra) b2c) = snd (both B c2b b2c).
 Proof. reflexivity. Qed.
+
+Lemma tcp_buf_ok : 1 <= tcp_buf_size.
+Proof. vm_compute. discriminate. Qed.
